@@ -896,11 +896,14 @@ func (r *Reader) find(key []byte, filtered bool, ro *opt.ReadOptions, noValue bo
 	// Key doesn't use block buffer, no need to copy the buffer.
 	rkey = data.Key()
 	if !noValue {
-		if r.bpool == nil {
+		if r.bpool == nil && r.cache == nil {
+			// The block was read into a fresh buffer that nothing else
+			// refers to once the iterator is released.
 			value = data.Value()
 		} else {
 			// Value does use block buffer, and since the buffer will be
-			// recycled, it need to be copied.
+			// recycled or stays shared through the block cache, it need
+			// to be copied.
 			value = append([]byte(nil), data.Value()...)
 		}
 	}
